@@ -114,7 +114,10 @@ def cmd_check(a):
                     json.dump(dict(property=prop, harness=hname, tier=tier, job=j.name, obligation=v['obligation'],
                                    inputs=v['inputs'], detail=v.get('detail')), f, indent=1)
                 rc, line = _replay(path, env)
-                if rc == 10:
+                from vtlib import api as _api
+                if rc == 10 and getattr(j, 'known_finding', None) and _api.kf_listed(j.known_finding):
+                    known_lines.append((j.known_finding, v['obligation'], v['inputs']))
+                elif rc == 10:
                     violations.append((path, v['obligation'], line))
                 else:
                     harness_errors.append('%s: solver model for %s did not reproduce on the real code (%s)' % (j.name, v['obligation'], line[:300]))
